@@ -150,6 +150,36 @@ Proof.
   rewrite Dm in H. apply unknown_result_mcs in H. exact H.
 Qed.
 
+Lemma transforms_first_all :
+  (forall tf o_at m rules tfs t0,
+     normalize_engine tf o_at m rules tfs t0 = normalize_engine tf o_at m rules [] (apply_transforms tf tfs t0)) /\
+  (forall tf lo_at rules amount date tfs t0,
+     normalize_legacy tf lo_at rules amount date tfs t0 =
+     normalize_legacy tf lo_at rules amount date [] (apply_transforms tf tfs t0)) /\
+  (forall tf a b t, apply_transforms tf (a ++ b)%list t = apply_transforms tf b (apply_transforms tf a t)).
+Proof. split; [exact transforms_first_engine|split; [exact transforms_first_legacy|exact apply_transforms_app]]. Qed.
+
+Lemma unknown_fallback_both :
+  (forall tf o_at md rules tfs t0 m c s i,
+     normalize_engine tf o_at md rules tfs t0 = NRes m c s i ->
+     let t := apply_transforms tf tfs t0 in
+     find (cat_match (o_at (t_desc t) (t_fields t))) rules = None ->
+     m = extract_name (t_desc t) /\ c = "Unknown" /\ s = "Unknown") /\
+  (forall tf1 o_at1 md1 rules1 tfs1 t1 tf2 o_at2 md2 rules2 tfs2 t2 m1 c1 s1 i1 m2 c2 s2 i2,
+     normalize_engine tf1 o_at1 md1 rules1 tfs1 t1 = NRes m1 c1 s1 i1 ->
+     normalize_engine tf2 o_at2 md2 rules2 tfs2 t2 = NRes m2 c2 s2 i2 ->
+     (let t := apply_transforms tf1 tfs1 t1 in find (cat_match (o_at1 (t_desc t) (t_fields t))) rules1 = None) ->
+     (let t := apply_transforms tf2 tfs2 t2 in find (cat_match (o_at2 (t_desc t) (t_fields t))) rules2 = None) ->
+     t_desc (apply_transforms tf1 tfs1 t1) = t_desc (apply_transforms tf2 tfs2 t2) ->
+     m1 = m2).
+Proof.
+  split; [exact unknown_fallback_engine|].
+  intros until i2. intros H1 H2 F1 F2 E.
+  destruct (unknown_fallback_engine _ _ _ _ _ _ _ _ _ _ H1 F1) as (-> & _).
+  destruct (unknown_fallback_engine _ _ _ _ _ _ _ _ _ _ H2 F2) as (-> & _).
+  rewrite E. reflexivity.
+Qed.
+
 (* ------------------------------------------------------------------------------------------------- *)
 (* the legacy tuple loop *)
 
